@@ -31,7 +31,7 @@ import OV.Gen.C08Trace29
 /-! GENERATED — the whole trace table. -/
 namespace OV.Gen.C08Trace
 def traceTable : List (String × String) := table0 ++ (table1 ++ (table2 ++ (table3 ++ (table4 ++ (table5 ++ (table6 ++ (table7 ++ (table8 ++ (table9 ++ (table10 ++ (table11 ++ (table12 ++ (table13 ++ (table14 ++ (table15 ++ (table16 ++ (table17 ++ (table18 ++ (table19 ++ (table20 ++ (table21 ++ (table22 ++ (table23 ++ (table24 ++ (table25 ++ (table26 ++ (table27 ++ (table28 ++ (table29)))))))))))))))))))))))))))))
-def nRows : Nat := 949
+def nRows : Nat := 957
 
 theorem ok_all : ∀ e ∈ traceTable, e.1 = e.2 := by
   intro e he
